@@ -3,6 +3,7 @@
 import PsutilModel.Base.Proto
 import PsutilModel.Model.C17Gen
 import PsutilModel.Spec.C17
+import PsutilModel.Spec.C17Ext
 open Lean Psutil Psutil.Proto Psutil.C17
 
 def jVal : Val → Json
@@ -61,6 +62,21 @@ def jAffSetOut : AffSetOut → Json
   | .valueError => jObj [("kind", "exc"), ("exc", "ValueError")]
   | .oob w => jObj [("kind", "oob"), ("word", jNat w)]
   | .mask cpus => jObj [("kind", "mask"), ("cpus", jList jNat cpus)]
+
+def parseSock (j : Json) : R Sock := do
+  pure { fam := ← natF j "fam", store := ← bytesF j "store", need := ← natF j "need", text := ← optF asBytes j "text" }
+
+def parseIfEntry (j : Json) : R IfEntry := do
+  pure { name := ← bytesF j "name", flags := ← natF j "flags", addr := ← optF parseSock j "addr",
+         netmask := ← optF parseSock j "netmask", ifu := ← optF parseSock j "ifu" }
+
+def jSlot : Slot → Json
+  | .val v => jInt v
+  | .ub => Json.str "ub"
+
+def jPrio : PrioOut → Json
+  | .value v => jObj [("kind", "value"), ("value", jInt v)]
+  | .osError c => jObj [("kind", "exc"), ("exc", "OSError"), ("errno", jNat c)]
 
 def maxIdx (ws : List (Nat × Nat)) : Nat := ws.foldl (fun m w => max m w.1) 0
 
@@ -146,6 +162,45 @@ def handle (_ : Unit) (j : Json) : R (Unit × Json) := do
     let undoc := names.filter (fun n => !(Gen.C17.iffDocNames.contains n))
     return ((), jObj [("model", jObj [("names", jList Json.str names), ("undocumented", jList Json.str undoc)]),
                       ("spec", jObj [("names", jList Json.str (Spec.flagNames (f % 65536))), ("undocumented", jList Json.str [])])])
+  else if op == "ifaddrs" then
+    let es ← listF parseIfEntry j "entries"
+    let reads := es.flatMap (ifReads ncfg)
+    let m := jObj [("rows", jRows (ifRows ncfg mcfg es)),
+                   ("reads_ok", Json.bool (reads.all fun r => r.1 ≤ r.2))]
+    return ((), jObj [("model", m), ("spec", jObj [("rows", jRows (Spec.ifRows (fun d => if d.isEmpty then none else some (Spec.macText d)) es))])])
+  else if op == "ifr" then
+    let name ← bytesF j "name"
+    let flags ← natF j "flags"
+    let m := jObj [("ifr_name", jBytes (ifrName scfg qcfg name)), ("in_bounds", Json.bool (ifrInBounds scfg qcfg name)),
+                   ("running", Json.bool (isRunning qcfg flags)),
+                   ("names", jList Json.str (iffNames iffLinux Gen.C17.iffMask flags))]
+    let s := jObj [("ifr_name", jBytes (Spec.boundedCopy name 16)), ("in_bounds", Json.bool true),
+                   ("running", Json.bool (flags / 64 % 2 == 1)),
+                   ("names", jList Json.str (Spec.flagNames (flags % 65536)))]
+    return ((), jObj [("model", m), ("spec", s)])
+  else if op == "mnt" then
+    let ls ← listF asBytes j "lines"
+    let lastTerm ← boolF j "last_term"
+    let rows := diskPartitionsC dcfg ls lastTerm
+    -- spec: a line that is the kernel's rendering of an entry and fits libc's buffer decodes to that entry
+    return ((), jObj [("model", jList (jList jBytes) rows), ("spec", Json.null)])
+  else if op == "mntrt" then
+    let m ← field j "mnt" >>= parseMnt
+    let line := Spec.renderMnt m
+    let got := (diskPartitionsC dcfg [line] true)
+    return ((), jObj [("model", jObj [("line", jBytes line), ("rows", jList (jList jBytes) got)]),
+                      ("spec", jObj [("line", jBytes line), ("rows", jList (jList jBytes) [[m.dev, m.dir, m.typ, m.opts]])])])
+  else if op == "sysinfo" then
+    let vals ← listF asNat j "vals"
+    let info : String → Nat := fun f => ((Spec.sysinfoOrder.zip vals).lookup f).getD 0
+    return ((), jObj [("model", jList jSlot (sysinfoTuple ycfg info)), ("spec", jList jSlot (Spec.sysinfoTuple info))])
+  else if op == "getprio" then
+    let e ← natF j "errno_in"
+    let k : Except Nat Int ← (do
+      match (j.getObjVal? "nice").toOption with
+      | some v => pure (.ok (← asInt v))
+      | none => pure (.error (← natF j "kerr")))
+    return ((), jObj [("model", jPrio (getPriority gcfg e k)), ("spec", jPrio (Spec.getPriority k))])
   else .error s!"unknown op {op}"
 
 def main : IO Unit := Proto.run () (total handle)
